@@ -898,3 +898,58 @@ def write_only_key(repo, modules, receivers=("meta", "metaattrs", "c_meta", "f_m
                         "%s mapping" % (ast.unparse(x), key, "metaattrs" if k == "meta" else "attrs", key,
                                         "attrs" if k == "meta" else "metaattrs")))
     return out, n
+
+
+def undefined_names(repo, modules):
+    """A name that a function reads and that is bound nowhere: not in the function or an enclosing one, not at module
+    level, not a builtin.  Reaching the statement raises NameError (`.format(stmts0)` where the variable is `stmt0`).
+    Scopes are resolved by the standard `symtable` module (the compiler's own rules, comprehensions and class bodies
+    included); a module with `from x import *` is skipped, nothing can be said about its globals."""
+    import builtins
+    import symtable
+    known = set(dir(builtins)) | {"__file__", "__name__", "__doc__", "__builtins__", "__spec__", "__package__"}
+    out, n = [], 0
+    for mn in modules:
+        m = repo.module(mn)
+        if any(isinstance(x, ast.ImportFrom) and any(a.name == "*" for a in x.names) for x in ast.walk(m.tree)):
+            continue
+        top = symtable.symtable(m.source, m.relpath, "exec")
+        bound = set(s.get_name() for s in top.get_symbols()
+                    if s.is_assigned() or s.is_imported() or s.is_namespace() or s.is_parameter())
+        # names a function declares `global` and assigns
+        for fn in ast.walk(m.tree):
+            if isinstance(fn, ast.Global):
+                bound.update(fn.names)
+        by_line = {}
+        for q, fn in m.functions().items():
+            by_line.setdefault(fn.lineno, []).append((q, fn))
+
+        def walk(t):
+            nonlocal n
+            for c in t.get_children():
+                walk(c)
+            if t.get_type() != "function":
+                return
+            for s in t.get_symbols():
+                if s.is_referenced() and s.is_global():
+                    n += 1
+                    name = s.get_name()
+                    if name in bound or name in known:
+                        continue
+                    # the innermost named function that contains a load of this name at/after the table's first line
+                    best = None
+                    for q, fn in m.functions().items():
+                        if fn.lineno <= t.get_lineno() <= (fn.end_lineno or fn.lineno):
+                            if best is None or fn.lineno >= best[1].lineno:
+                                best = (q, fn)
+                    if best is None:
+                        continue
+                    q, fn = best
+                    node = next((x for x in ast.walk(fn) if isinstance(x, ast.Name) and x.id == name
+                                 and isinstance(x.ctx, ast.Load)), None)
+                    if node is None:
+                        continue
+                    out.append((mn, q, node, "`%s` is read here but bound nowhere (not a local, not a name of the module, "
+                                "not a builtin): the statement raises NameError as soon as an input reaches it" % name))
+        walk(top)
+    return out, n
